@@ -425,6 +425,255 @@ cmd_ichain(char **tok, int nt)
 	fflush(stdout);
 }
 
+
+// ------------------------------------------------------------------ order through devices
+// iorder <kind> <ndev> <k> <n>
+//   busrefl:   raw BUS R with a reflector device; k cooked senders and one cooked receiver dial R
+//   bus2:      raw BUS R1 | R2 two-way device; k senders dial R1, the receiver dials R2
+//   pair1refl: raw PAIR1 R with a reflector device; one cooked peer sends and gets its own messages back
+//   reqrep / survey: k raw requesters -> ndev devices -> one raw replier; the replier echoes everything back
+// every sender sends n numbered messages, interleaved with the others, as fast as the harness thread can;
+// buffers are as large as the protocols allow.  Receivers check, per sender, that the numbers are strictly
+// increasing (drops are the protocols' business, overtaking is not).
+//   -> iorder rv=<n> sent=<k> recv=<k> reorder=<k> back=<k> backreorder=<k> first=<text|->
+#define OMAX 8
+struct ord {
+	int  last[OMAX];
+	int  recv, reorder;
+	char first[64];
+};
+static void
+ord_init(struct ord *o)
+{
+	memset(o, 0, sizeof(*o));
+	for (int i = 0; i < OMAX; i++) o->last[i] = -1;
+}
+static void
+ord_see(struct ord *o, nng_msg *m)
+{
+	uint8_t *b = nng_msg_body(m);
+	if (nng_msg_len(m) != 5 || b[0] >= OMAX) {
+		o->reorder++;
+		if (!o->first[0]) snprintf(o->first, sizeof(o->first), "damaged");
+		return;
+	}
+	uint32_t v;
+	NNI_GET32(b + 1, v);
+	o->recv++;
+	if ((int) v <= o->last[b[0]]) {
+		o->reorder++;
+		if (!o->first[0]) snprintf(o->first, sizeof(o->first), "s%d#%u-after-#%d", b[0], v, o->last[b[0]]);
+	} else {
+		o->last[b[0]] = (int) v;
+	}
+}
+// drain a socket at quiescence
+static void
+ord_drain(nng_socket s, struct ord *o, nng_msg **keep, int *nkeep, int maxkeep)
+{
+	for (;;) {
+		nng_msg *m = NULL;
+		int      e = nng_recvmsg(s, &m, NNG_FLAG_NONBLOCK);
+		if (e != 0) {
+			if (vt_quiesce() != 0) return;
+			e = nng_recvmsg(s, &m, NNG_FLAG_NONBLOCK);
+			if (e != 0) return;
+		}
+		ord_see(o, m);
+		if (keep != NULL && *nkeep < maxkeep) {
+			keep[(*nkeep)++] = m;
+		} else {
+			nng_msg_free(m);
+		}
+	}
+}
+static nng_msg *
+ord_msg(int who, int i)
+{
+	nng_msg *m;
+	uint8_t  b[5] = { (uint8_t) who };
+	NNI_PUT32(b + 1, (uint32_t) i);
+	nng_msg_alloc(&m, 0);
+	nng_msg_append(m, b, 5);
+	return m;
+}
+
+static void
+cmd_iorder(char **tok, int nt)
+{
+	const char *kind = tok[1];
+	int         ndev = atoi(tok[2]), k = atoi(tok[3]), n = atoi(tok[4]);
+	int         rv = 0, sent = 0;
+	struct ord  fw, bk;
+	nng_socket  snd[OMAX], rcv, R1, R2, front[MAXCH], back[MAXCH];
+	nng_aio    *daio[MAXCH + 1];
+	nng_socket  none = NNG_SOCKET_INITIALIZER;
+	char        url[64];
+	int         nd = 0;
+	(void) nt;
+	ord_init(&fw);
+	ord_init(&bk);
+	if (k > OMAX) k = OMAX;
+	if (k < 1) k = 1;
+	if (ndev > MAXCH - 1) ndev = MAXCH - 1;
+	icase++;
+#define BIG(s)                                        \
+	do {                                          \
+		nng_socket_set_int(s, NNG_OPT_SENDBUF, 8192); \
+		nng_socket_set_int(s, NNG_OPT_RECVBUF, 8192); \
+		nng_socket_set_ms(s, NNG_OPT_SENDTIMEO, 20000); \
+	} while (0)
+	int bus = strcmp(kind, "busrefl") == 0 || strcmp(kind, "bus2") == 0;
+	int pr  = strcmp(kind, "pair1refl") == 0;
+	if (bus || pr) {
+		const char *rawp = pr ? "pair1_raw" : "bus0_raw", *ckp = pr ? "pair1" : "bus0";
+		int two = strcmp(kind, "bus2") == 0;
+		if (pr) k = 1;
+		CK(open_proto(rawp, &R1));
+		BIG(R1);
+		snprintf(url, sizeof(url), "inproc://c13o-%d-a", icase);
+		CK(nng_listen(R1, url, NULL, 0));
+		if (two) {
+			CK(open_proto(rawp, &R2));
+			BIG(R2);
+			snprintf(url, sizeof(url), "inproc://c13o-%d-b", icase);
+			CK(nng_listen(R2, url, NULL, 0));
+		}
+		for (int j = 0; j < k; j++) {
+			CK(open_proto(ckp, &snd[j]));
+			BIG(snd[j]);
+			snprintf(url, sizeof(url), "inproc://c13o-%d-a", icase);
+			CK(nng_dial(snd[j], url, NULL, 0));
+		}
+		if (!pr) {
+			CK(open_proto(ckp, &rcv));
+			BIG(rcv);
+			snprintf(url, sizeof(url), "inproc://c13o-%d-%s", icase, two ? "b" : "a");
+			CK(nng_dial(rcv, url, NULL, 0));
+		}
+		if (vt_quiesce() != 0) CK(-1);
+		CK(nng_aio_alloc(&daio[0], NULL, NULL));
+		nng_device_aio(daio[0], R1, two ? R2 : none);
+		nd = 1;
+		if (vt_quiesce() != 0) CK(-1);
+		for (int i = 0; i < n && rv == 0; i++) {
+			for (int j = 0; j < k; j++) {
+				nng_msg *m = ord_msg(j, i);
+				int      e = nng_sendmsg(snd[j], m, 0);
+				if (e != 0) {
+					nng_msg_free(m);
+					CK(e);
+				} else {
+					sent++;
+				}
+			}
+		}
+		if (vt_quiesce() != 0) CK(-1);
+		ord_drain(pr ? snd[0] : rcv, &fw, NULL, NULL, 0);
+		// a reflector also hands every sender the other senders' messages
+		if (!pr && !two)
+			for (int j = 0; j < k; j++) {
+				struct ord one;
+				ord_init(&one);
+				ord_drain(snd[j], &one, NULL, NULL, 0);
+				bk.recv += one.recv;
+				bk.reorder += one.reorder;
+				// a reflector must never hand a sender its own message back
+				if (one.last[j] >= 0) {
+					bk.reorder++;
+					if (!one.first[0]) snprintf(one.first, sizeof(one.first), "own-message-echoed#%d", one.last[j]);
+				}
+				if (one.first[0] && !bk.first[0]) snprintf(bk.first, sizeof(bk.first), "at-s%d:%s", j, one.first);
+			}
+		for (int j = 0; j < k; j++) nng_socket_close(snd[j]);
+		if (!pr) nng_socket_close(rcv);
+	} else {
+		int         surv = strcmp(kind, "survey") == 0;
+		const char *fp = surv ? "respondent0_raw" : "rep0_raw", *bp = surv ? "surveyor0_raw" : "req0_raw";
+		static nng_msg *keep[65536];
+		int             nkeep = 0;
+		CK(open_proto(fp, &rcv));
+		BIG(rcv);
+		set_ttl(rcv, 15);
+		snprintf(url, sizeof(url), "inproc://c13o-%d-%d", icase, ndev + 1);
+		CK(nng_listen(rcv, url, NULL, 0));
+		for (int i = ndev; i >= 1; i--) {
+			CK(open_proto(fp, &front[i]));
+			CK(open_proto(bp, &back[i]));
+			BIG(front[i]);
+			BIG(back[i]);
+			set_ttl(front[i], 15);
+			snprintf(url, sizeof(url), "inproc://c13o-%d-%d", icase, i);
+			CK(nng_listen(front[i], url, NULL, 0));
+			snprintf(url, sizeof(url), "inproc://c13o-%d-%d", icase, i + 1);
+			CK(nng_dial(back[i], url, NULL, 0));
+		}
+		snprintf(url, sizeof(url), "inproc://c13o-%d-%d", icase, 1);
+		for (int j = 0; j < k; j++) {
+			CK(open_proto(bp, &snd[j]));
+			BIG(snd[j]);
+			CK(nng_dial(snd[j], url, NULL, 0));
+		}
+		if (vt_quiesce() != 0) CK(-1);
+		for (int i = ndev; i >= 1; i--) {
+			CK(nng_aio_alloc(&daio[nd], NULL, NULL));
+			nng_device_aio(daio[nd], front[i], back[i]);
+			nd++;
+		}
+		if (vt_quiesce() != 0) CK(-1);
+		for (int i = 0; i < n && rv == 0; i++) {
+			for (int j = 0; j < k; j++) {
+				nng_msg *m     = ord_msg(j, i);
+				uint8_t  id[4] = { 0x80, (uint8_t) j, (uint8_t) (i >> 8), (uint8_t) i };
+				nng_msg_header_append(m, id, 4);
+				int e = nng_sendmsg(snd[j], m, 0);
+				if (e != 0) {
+					nng_msg_free(m);
+					CK(e);
+				} else {
+					sent++;
+				}
+			}
+		}
+		if (vt_quiesce() != 0) CK(-1);
+		ord_drain(rcv, &fw, keep, &nkeep, 65536);
+		// echo everything back, headers as received
+		for (int x = 0; x < nkeep; x++) {
+			int e = nng_sendmsg(rcv, keep[x], 0);
+			if (e != 0) {
+				nng_msg_free(keep[x]);
+				CK(e);
+			}
+		}
+		if (vt_quiesce() != 0) CK(-1);
+		for (int j = 0; j < k; j++) {
+			struct ord one;
+			ord_init(&one);
+			ord_drain(snd[j], &one, NULL, NULL, 0);
+			bk.recv += one.recv;
+			bk.reorder += one.reorder;
+			// a reply for somebody else is a routing error, counted as reordering of the worst kind
+			for (int q = 0; q < OMAX; q++)
+				if (q != j && one.last[q] >= 0) {
+					bk.reorder++;
+					if (!one.first[0]) snprintf(one.first, sizeof(one.first), "reply-of-s%d-at-s%d", q, j);
+				}
+			if (one.first[0] && !bk.first[0]) snprintf(bk.first, sizeof(bk.first), "back:%s", one.first);
+		}
+		for (int j = 0; j < k; j++) nng_socket_close(snd[j]);
+	}
+	for (int i = 0; i < nd; i++) {
+		nng_aio_cancel(daio[i]);
+		nng_aio_wait(daio[i]);
+		nng_aio_free(daio[i]);
+	}
+	if (!(bus || pr)) nng_socket_close(rcv);
+	int q = vt_quiesce();
+	printf("iorder rv=%d%s sent=%d recv=%d reorder=%d back=%d backreorder=%d first=%s\n", rv, q ? " NOT-QUIESCENT" : "", sent,
+	    fw.recv, fw.reorder, bk.recv, bk.reorder, fw.first[0] ? fw.first : (bk.first[0] ? bk.first : "-"));
+	fflush(stdout);
+}
+
 int
 main(void)
 {
@@ -458,6 +707,15 @@ main(void)
 				continue;
 			}
 			cmd_ichain(tok, nt);
+			continue;
+		}
+		if (strcmp(op, "iorder") == 0) {
+			if (nt < 5) {
+				printf("badop iorder\n");
+				fflush(stdout);
+				continue;
+			}
+			cmd_iorder(tok, nt);
 			continue;
 		}
 		if (strcmp(op, "open") == 0) {
